@@ -73,6 +73,12 @@ CLAIM = dict(
           "edits one of them. Trees are judged on their documented structure (a child that is an instance of RoutingTree "
           "or of any subclass continues the route, anything else is a vertex). build_routing_tables (deprecated, "
           "place_and_route/utils.py) is not part of this property's anchors and is not exercised. "
+          "OBJECT SHARING (25% of the forests, also inside histories that do not edit trees): the forest is written out "
+          "in full - that is what the Lean model and TablesSpec see, sharing is invisible to the specification - but nodes "
+          "carrying the same label are built as ONE Python object: the same root object under several nets (another key, "
+          "another mask only, the same key and mask - then also the very same (key, mask) tuple object), the same subtree "
+          "object under a further root or under two parents (a DAG of tree objects, never a cycle), the same child object "
+          "listed twice under one node. "
           "A table is a list: 35% of the generated tables of two or more entries (single-load, lossy, scale and "
           "session streams, through load_routing_table_entries and through load_routing_tables) repeat an entry exactly "
           "(adjacent, far apart, several times) or repeat its key and mask with another route, and sessions insert copies "
@@ -165,7 +171,9 @@ RULE = ("pure cases = forests of 1-6 nets on a 4x4 torus: random branching trees
         "list / tuple / set, child pairs as tuples or namedtuples, vertices of arbitrary hashable types (object, str, int, "
         "a (Routes, object) tuple that looks like a child pair, an (x, y) tuple, a namedtuple, a frozenset, an unrelated "
         "class that is also called RoutingTree); in 15% the caller first edits the tables it was handed (sources sets, "
-        "lists, dict) and converts the same trees again, the second result is judged; machine cases = tables of 0..1024 entries (sizes 0,1,2,3,"
+        "lists, dict) and converts the same trees again, the second result is judged; 25% of the forests share objects (the "
+        "same root object under nets with other / equal keys and masks, the same subtree object under several roots or "
+        "parents, the same child twice) while the specification sees the forest written out in full; machine cases = tables of 0..1024 entries (sizes 0,1,2,3,"
         "16,17,64,1023,1024 and random) over all 24 route bits with full-width keys/masks, 1-3 chips, app ids 0..255, scp "
         "buffer sizes 16..512, 35% of the tables of >= 2 entries with exactly repeated entries or a repeated key/mask "
         "with another route, random router free-list states (fragmented, full, empty) and allocation policies (first "
@@ -329,7 +337,94 @@ def gen_forest(rng):
     if rng.random() < 0.15:
         # the caller edits the tables it was handed (dict, lists, the entries' sources sets) and converts again
         case["reconvert"] = rng.randrange(1000)
+    if nets and rng.random() < 0.25:
+        add_sharing(rng, case)
     return case
+
+
+def subtree_ids(t):
+    return {id(n) for n in tree_nodes(t)}
+
+
+def add_sharing(rng, case):
+    """OBJECT SHARING: the forest stays written out in full (that is what the Lean model and the specification see -
+    sharing is invisible to them), but nodes given the same label "o" are built as one Python object: the same root
+    object under several nets (other key, other mask only, same key and mask), the same subtree object under several
+    roots or several parents (a DAG of tree objects), the same child listed twice under one node; nets holding the
+    very same (key, mask) object."""
+    import copy
+    nets = case["nets"]
+    labels = [0]
+
+    def label(t):
+        if t.get("o") is None:
+            labels[0] += 1
+            t["o"] = "o%d" % labels[0]
+        return t["o"]
+    wf = all(wellformed(n["tree"]) for n in nets)
+    kinds = []
+    # phase 1 - new children (only where no shared object exists yet, so that copies stay equal)
+    for _ in range(rng.choice([0, 0, 1, 2])):
+        n = rng.choice(nets)
+        frozen = set()
+        for m in nets:
+            for t in tree_nodes(m["tree"]):
+                if t.get("o") is not None:
+                    frozen |= subtree_ids(t)
+        nodes = [t for t in tree_nodes(n["tree"]) if id(t) not in frozen]
+        if not nodes:
+            continue
+        if rng.random() < 0.5:
+            cand = [t for t in nodes if any(sub is not None for r, sub in t["k"])]
+            if cand:
+                p = rng.choice(cand)
+                j = rng.choice([j for j, (r, sub) in enumerate(p["k"]) if sub is not None])
+                label(p["k"][j][1])
+                p["k"].insert(rng.randrange(len(p["k"]) + 1), [p["k"][j][0], copy.deepcopy(p["k"][j][1])])
+                if "v" in p:
+                    p["v"].append("obj")
+                kinds.append("child_twice")
+        else:
+            subs = [t for t in tree_nodes(n["tree"])[1:]]
+            if subs:
+                x = rng.choice(subs)
+                inside = subtree_ids(x)
+                parents = [t for t in nodes if id(t) not in inside]          # (never below x itself: no cycles)
+                if parents:
+                    p = rng.choice(parents)
+                    label(x)
+                    p["k"].append([rng.randrange(6), copy.deepcopy(x)])
+                    if "v" in p:
+                        p["v"].append("obj")
+                    kinds.append("subtree_under_two_parents")
+    # phase 2 - further nets made of objects that exist already
+    for _ in range(rng.choice([1, 1, 2, 3])):
+        n = rng.choice(nets)
+        kind = rng.choice(["root_other_key", "root_other_key", "root_other_mask", "root_same_key",
+                           "subtree_new_root", "subtree_new_root_other_key"])
+        key, mask = n["key"], n["mask"]
+        if kind in ("root_other_key", "subtree_new_root_other_key"):
+            key = rng.choice([key ^ (1 << rng.randrange(32)), rng.randrange(1 << 32), key + 1])
+        elif kind == "root_other_mask":
+            mask = mask ^ (1 << rng.randrange(32))
+        if kind.startswith("root"):
+            label(n["tree"])
+            new = {"key": key, "mask": mask, "tree": copy.deepcopy(n["tree"])}
+            if kind == "root_same_key" and rng.random() < 0.5:
+                labels[0] += 1
+                n["kmo"] = new["kmo"] = n.get("kmo") or "km%d" % labels[0]
+        else:
+            x = rng.choice(tree_nodes(n["tree"]))
+            label(x)
+            l = rng.randrange(6)
+            dx, dy = LINK_VEC[l]
+            new = {"key": key, "mask": mask,
+                   "tree": {"c": [abs(x["c"][0] - dx), abs(x["c"][1] - dy)], "k": [[l, copy.deepcopy(x)]]}}
+        nets.insert(rng.randrange(len(nets) + 1), new)
+        kinds.append(kind)
+    case["sharing"] = sorted(set(kinds))
+    if wf and not all(wellformed(n["tree"]) for n in nets):
+        raise AssertionError("sharing made a well-formed forest malformed")
 
 
 VERTEX_KINDS = ["obj", "obj", "str", "int", "pair", "xy", "ntuple", "frozenset", "faketree", "t0", "t1", "t3", "bool"]
@@ -420,7 +515,17 @@ def make_vertex(kind, chip, i):
     return Vertex()
 
 
-def build_tree(t, use_links):
+def build_tree(t, use_links, memo=None):
+    """the live tree of a JSON tree; nodes carrying the same object label "o" become ONE object (the first one met is
+    built, the others - equal in chip and children by construction - re-use it)"""
+    if memo is not None and t.get("o") is not None:
+        if t["o"] not in memo:
+            memo[t["o"]] = build_node(t, use_links, memo)
+        return memo[t["o"]]
+    return build_node(t, use_links, memo)
+
+
+def build_node(t, use_links, memo):
     from rig.routing_table import Routes
     from rig.links import Links
     kids = []
@@ -432,7 +537,7 @@ def build_tree(t, use_links):
             rr = Links(r)
         else:
             rr = Routes(r)
-        child = make_vertex(kinds[i] if i < len(kinds) else "obj", t["c"], i) if s is None else build_tree(s, use_links)
+        child = make_vertex(kinds[i] if i < len(kinds) else "obj", t["c"], i) if s is None else build_tree(s, use_links, memo)
         kids.append(ChildPair(rr, child) if t.get("p") == "named" else (rr, child))
     form = t.get("f", "list")
     kids = tuple(kids) if form == "tuple" else set(kids) if form == "set" else kids
@@ -564,11 +669,18 @@ def build_forest(case):
     """the live arguments of routing_tree_to_tables for a forest case: (routes, net_keys, net ids in order)"""
     ak = case.get("ak") or {}
     routes, net_keys, ids = make_dict(ak.get("routes")), make_dict(ak.get("net_keys")), []
+    memo, kms = {}, {}
     for i, n in enumerate(case["nets"]):
         net = net_id(ak.get("ids"), i)
         ids.append(net)
-        routes[net] = build_tree(n["tree"], case.get("links_enum", False))
-        net_keys[net] = make_km(ak, n["key"], n["mask"], i)
+        routes[net] = build_tree(n["tree"], case.get("links_enum", False), memo)
+        if n.get("kmo") is not None:
+            # several nets holding the very same (key, mask) object
+            if n["kmo"] not in kms:
+                kms[n["kmo"]] = make_km(ak, n["key"], n["mask"], i)
+            net_keys[net] = kms[n["kmo"]]
+        else:
+            net_keys[net] = make_km(ak, n["key"], n["mask"], i)
     return routes, net_keys, ids
 
 
@@ -677,6 +789,10 @@ def judge_forest(ctx, case, fc, impl, out3, label="", count=True):
             ctx.tag("forest_children_argument_omitted_or_None")
     if fc.get("reconvert") is not None:
         ctx.tag("forest_converted_again_after_caller_edits")
+    for k in fc.get("sharing") or []:
+        ctx.tag("forest_shared_object_" + k)
+    if any(n.get("kmo") for n in fc["nets"]):
+        ctx.tag("forest_shared_key_mask_object")
     if fc.get("ak"):
         ak = fc["ak"]
         ctx.tag("forest_ak_ids_" + ak["ids"], "forest_ak_call_" + ak["conv"], "forest_ak_numbers_" + ak["num"],
@@ -849,6 +965,16 @@ def current_forest(fc):
     return out
 
 
+def unshare(fc):
+    """forget the object sharing (histories that edit the trees or change one copy only)"""
+    for n in fc["nets"]:
+        n.pop("kmo", None)
+        for t in tree_nodes(n["tree"]):
+            t.pop("o", None)
+    fc.pop("sharing", None)
+    return fc
+
+
 def listify(fc):
     for n in fc["nets"]:
         for t in tree_nodes(n["tree"]):
@@ -882,7 +1008,7 @@ def gen_fhist(rng):
     if kind == "repeat":
         steps = [["conv", 0]] * rng.choice([2, 3])
     elif kind == "twins":
-        f1 = copy.deepcopy(f0)
+        f1 = unshare(copy.deepcopy(f0))
         n = rng.choice(f1["nets"])
         how = rng.choice(["route", "key", "class", "drop", "enum", "ak"])
         node = rng.choice(tree_nodes(n["tree"]))
@@ -910,7 +1036,7 @@ def gen_fhist(rng):
         steps = rng.choice([[["conv", 0], ["conv", 1]], [["conv", 1], ["conv", 0]],
                             [["conv", 0], ["conv", 1], ["conv", 0]], [["conv", 1], ["conv", 0], ["conv", 1]]])
     elif kind == "inplace":
-        listify(f0)
+        listify(unshare(f0))
         work = copy.deepcopy(f0)
         steps.append(["conv", 0])
         for _ in range(rng.choice([1, 2, 3])):
